@@ -232,10 +232,37 @@ def framing(ctx):
                   'the remainder returned by get_msg is not stored back into self.data', nm)
     dm = m.func(f'{IFACE}.decode_msg')
     ctx.analysed(dm)
+    def sep_ok(e):
+        v = m.const(dm.module, resolved(e, dm.node))
+        return None if v is UNKNOWN else v == ' '
     sp = [c for c in calls_in(dm.node) if call_attr(c) == 'split']
-    ok = any(len(c.args) == 2 and isinstance(c.args[1], ast.Constant) and c.args[1].value == 2 for c in sp)
-    ctx.check(ok, f'{dm.qualname}:split into three fields', dm.node, "split(' ', 2)",
+    ok = any(((len(c.args) == 2 and isinstance(c.args[1], ast.Constant) and c.args[1].value == 2) or
+              (isinstance(kwarg(c, 'maxsplit'), ast.Constant) and kwarg(c, 'maxsplit').value == 2)) for c in sp)
+    # ... or two cuts at the first separator each, the second one applied to the rest the first one left
+    parts = [n for n in body_walk(dm.node) if isinstance(n, ast.Assign) and isinstance(n.value, ast.Call) and call_attr(n.value) == 'partition'
+             and isinstance(n.targets[0], ast.Tuple) and len(n.targets[0].elts) == 3]
+    if not ok and len(parts) == 2:
+        rest = parts[0].targets[0].elts[2]
+        ok = isinstance(rest, ast.Name) and src(parts[1].value.func.value) == rest.id and \
+            all(len(p_.value.args) == 1 and sep_ok(p_.value.args[0]) is not False for p_ in parts)
+    ctx.check(ok, f'{dm.qualname}:split into three fields', dm.node, "split(' ', 2) / two partition(' ') cuts",
               'decode_msg does not split into at most three fields: JSON data containing spaces is cut', dm)
+    # white space is taken off the BYTES: bytes.strip() removes ASCII blanks only, str.strip() also FS, GS, RS, US, NEL, NBSP,
+    # U+2028 ... - characters a specifier / the JSON text may end with
+    bprm = dm.node.args.args[0].arg if dm.node.args.args else 'msg'
+    strips = [c for c in calls_in(dm.node) if call_attr(c) in ('strip', 'rstrip', 'lstrip') and not c.args]
+    for c in strips:
+        recv = resolved(c.func.value, dm.node)
+        on_text = any(isinstance(x, ast.Call) and call_attr(x) == 'decode' for x in ast.walk(recv))
+        on_bytes = not on_text and bprm in names_in(recv)
+        key = f'{dm.qualname}:white space is stripped from the bytes'
+        if on_text:
+            ctx.bad(key, c, f'`{src(c)}` strips the decoded text: str.strip() also removes \\x1c-\\x1f, NEL, NBSP, U+2028 and other unicode white space '
+                    'that bytes.strip() keeps - a specifier ending with such a character is echoed without it, JSON text ending with one is silently repaired', dm)
+        elif on_bytes:
+            ctx.ok(key, c, 'bytes.strip(): ASCII white space only', dm)
+        else:
+            ctx.undecided(key, c, 'receiver of strip() not traced to the received bytes', dm)
 
 
 @rule('C07.R4', min_instances=3)
@@ -253,7 +280,23 @@ def line_atomicity(ctx):
             from sa.lib import deep_calls
             deep = deep_calls(m, sr, lambda c: call_attr(c) in ('sendall', 'send'))
             if deep:
-                ctx.undecided(f'{sr.qualname}:send inside send_lock', sr.node, 'the send call lives in a helper method', sr)
+                from sa.lib import in_lock_deep
+                for c, owner, site in deep:
+                    ctx.analysed(owner)
+                    ctx.check(in_lock_deep(c, owner, site, 'send_lock'), f'{sr.qualname}:send inside send_lock', site,
+                              f'`{src(site)}` (which sends) is called inside `with self.send_lock`',
+                              f'the socket send of {owner.qualname} happens outside the send_lock region (`{src(site)}` is not inside `with self.send_lock`): '
+                              'an asynchronous update can split another line', sr)
+                    # the payload handed to the helper is the encoded frame
+                    hp = [a.arg for a in owner.node.args.args][1:]
+                    arg = c.args[0] if c.args else None
+                    if isinstance(arg, ast.Name) and arg.id in hp and hp.index(arg.id) < len(site.args):
+                        prov = origins(site.args[hp.index(arg.id)], sr.node)
+                        ok = bool(prov) and all(isinstance(o, ast.Call) and (call_name(o) or '').startswith('encode_msg_frame') for o in prov)
+                        ctx.check(ok, f'{sr.qualname}:sends the encoded frame', site, 'payload = encode_msg_frame(*data)',
+                                  f'payload `{src(site.args[hp.index(arg.id)])}` is not the output of the frame encoder', sr)
+                    else:
+                        ctx.undecided(f'{sr.qualname}:sends the encoded frame', site, 'payload of the helper not traced', sr)
             else:
                 ctx.bad(f'{sr.qualname}:send inside send_lock', sr.node, 'send_reply never hands the encoded line to the socket (no sendall / send call): '
                         'no request gets its reply', sr)
